@@ -48,6 +48,10 @@ CONTEXTS = {
     "or(C,no())->fail()": [["->", fn("or", [], [C, fn("no")]), fn("fail")]],
     "no()->fail()": [["->", fn("no"), fn("fail")]],
     "C->fail_all()": [["->", C, fn("fail_all")]],
+    # fail() right of a last() form, firing for the first time on the final line (the path is 'frozen' there - KF-C13-1 - but the verdict must
+    # still change); only the final verdict is compared for these two
+    "last()->push C->fail()": [["->", fn("last", ["nocontrib"]), fn("push", [], [["t", "L"], fn("line_number")])], ["->", C, fn("fail")]],
+    "last()->push fail()": [["->", fn("last", ["nocontrib"]), fn("push", [], [["t", "L"], fn("line_number")])], ["->", fn("last", ["nocontrib"]), fn("fail")]],
     "failed()->stop() C->fail()": [["->", fn("failed"), fn("stop")], ["->", C, fn("fail")]],
     "fail_and_stop(above(add(#1,1),100))": [fn("fail_and_stop", [], [fn("above", [], [fn("add", [], [["h", 1], ["t", 1]]), ["t", 100]])])],
     "fail_and_stop(above(add(#1,1),1))": [fn("fail_and_stop", [], [fn("above", [], [fn("add", [], [["h", 1], ["t", 1]]), ["t", 1]])])],
@@ -161,7 +165,7 @@ def run_case(case):
             gv, ev = o["vars"].get("v"), it.vars.get("v")
             if gv != ev:
                 bad("valid() at the start of each line", gv, ev, cstr)
-            if kind == "ctx":
+            if kind == "ctx" and not case["prog"].startswith("last()"):
                 gf, ef = o["vars"].get("f"), it.vars.get("f")
                 if gf != ef:
                     bad("failed() at the end of each line", gf, ef, cstr)
